@@ -84,6 +84,27 @@ def seeded_variants(prop):
     return out
 
 
+def seeded_neutral_variants(prop):
+    """kept behaviour-preserving refactorings (sub-agent round 4) of this property's code: must stay silent"""
+    import json
+    base = os.path.join(report.VERIF, "seeded_neutral")
+    out = []
+    if not os.path.isdir(base):
+        return out
+    for sid in sorted(os.listdir(base)):
+        mp = os.path.join(base, sid, "meta.json")
+        if not os.path.exists(mp):
+            continue
+        try:
+            meta = json.load(open(mp))
+        except ValueError:
+            continue
+        if meta.get("property") != prop or meta.get("excluded"):
+            continue
+        out.append({"id": "neutral-" + sid, "patch": os.path.join("seeded_neutral", sid, "patch.diff"), "expect": None})
+    return out
+
+
 def _apply(variant, root):
     if "patch" in variant:
         return _apply_patch(variant, root)
@@ -146,7 +167,7 @@ def _one(args):
 def run(prop, root=None, jobs=None):
     from .runner import analyse
     root = root or REPO
-    variants = _load_variants(prop) + seeded_variants(prop)
+    variants = _load_variants(prop) + seeded_variants(prop) + seeded_neutral_variants(prop)
     base = analyse(prop, "quick", root)
     base_v, base_u = _keys(base, report.VIOLATION), _keys(base, report.UNDECIDED)
     jobs = jobs or min(16, os.cpu_count() or 1)
